@@ -251,7 +251,7 @@ pub fn run(ctx: &mut Ctx) {
     ctx.assume("version-needed is only required to agree between local and central header and be >=45 when a central ZIP64 record is present");
     ctx.assume("CPython zipfile / Info-ZIP unzip are trusted on the feature subset they support; unzip exit status 1 (warning) is not treated as rejection");
 
-    let n = ctx.q(1500, 20000);
+    let n = ctx.q(4000, 40000);
     let maxc = ctx.q(1 << 17, 4 << 20);
     let ext_budget = ctx.q(200usize, 4000);
     let ext: Mutex<Vec<(Vec<u8>, Option<String>, bool, serde_json::Value)>> = Mutex::new(Vec::new());
